@@ -356,6 +356,14 @@ def run(case, ctx):
                            par_mod.Cores: slice((a + 5) % 17, (a + 5) % 17 + 1),
                            par_mod.SDRAM: slice(a, a + 100)}
                        for v, (a, b) in allocs.items()}
+        # vertices that own none of the caller's core resource (devices)
+        # may still hold something under the default name: it is not what
+        # the caller said cores are
+        for k_, v in enumerate(sorted(place, key=repr)):
+            if v not in allocations and k_ % 2 == 0:
+                allocations[v] = {par_mod.Cores: slice(k_ % 16, k_ % 16 + 1),
+                                  par_mod.SDRAM: slice(0, 4)}
+                ctx.hit("only_default_name_allocated")
     else:
         allocations = {v: {par_mod.Cores: slice(a, b)}
                        for v, (a, b) in allocs.items()}
